@@ -75,6 +75,7 @@ class Hub:
         self.originals: dict = {}
         self.op_counts: dict[str, int] = {}
         self.global_dimset = False
+        self.paused_hooks: list = []  # called for wrapped calls made while monitoring is paused (harness-internal use of live objects)
 
     def on(self, op: str, fn):
         self.oracles.setdefault(op, []).append(fn)
@@ -198,6 +199,9 @@ def _make_wrapper(hub: Hub, op: str, orig, skip_self_snapshot=False):
     @functools.wraps(orig)
     def wrapper(*args, **kwargs):
         if hub.paused:
+            if hub.paused_hooks:
+                for h in hub.paused_hooks:
+                    h(op, args)
             return orig(*args, **kwargs)
         oracles = hub.oracles.get(op)
         gmons = hub.global_monitors if (hub.global_monitors and hub.global_applies(op)) else ()
